@@ -22,8 +22,8 @@ pub fn def() -> CheckDef {
     CheckDef {
         id: "C07",
         level: "exploration",
-        runs_quick: 150_000,
-        runs_thorough: 3_000_000,
+        runs_quick: 600_000,
+        runs_thorough: 15_000_000,
         rule: "twin runs of the real code: instance A driven through a seeded composition (k_1..k_m) of n blocks with a call form per piece (single-block forms, *_blocks, *_blocks_inout, *_blocks_b2b, driver scripts mixing single/par/tail backend calls) under a width policy Fixed(w) or flapping per call, w in {1,2,3,5,8}; instance B one block at a time, in place, width 1. All 12 block-mode types, the 8 stream cores, the 6 cts one-shots. distinct = distinct (type, block size, cipher, policy, per-piece form/size-class sequence); non-trivial = >= 1 piece of >= 2 blocks under a width > 1 backend (cts: message > 2 blocks)",
         required_probes: &["width_2", "width_3", "width_5", "par_groups_then_tail", "piece_not_multiple_of_width", "width_changes_between_calls", "script_call", "core_par", "cts_par"],
         r#gen,
